@@ -8,7 +8,7 @@
 From Coq Require Import ZArith Bool List.
 From ArmV Require Import Lib.PyZ Lib.Monad Lib.Machine Spec.Pseudocode Spec.Arch Spec.MachineView Spec.Branches Spec.StepFrame
   Spec.OperandSpec Spec.DPSem Proofs.StateLemmas Proofs.CondProofs Proofs.GuardProofs Proofs.DPLemmas Proofs.StepProofs Proofs.StepDP
-  Proofs.StepInstances Proofs.StepInstancesArm Proofs.StepInstancesThumb Proofs.DPRange Proofs.StepDPReg Proofs.StepInstancesArmReg Proofs.StepInstancesCmp Proofs.StepInstancesArmRsr Proofs.StepInstancesThumbReg Proofs.StepInstancesMov Proofs.StepInstancesThumb2 Proofs.StepInstancesShift Proofs.StepInstancesThumb2Reg Proofs.StepInstancesCmpReg Proofs.MemProofs Proofs.StepFetch Proofs.StepClosed Proofs.StepInstancesExample.
+  Proofs.StepInstances Proofs.StepInstancesArm Proofs.StepInstancesThumb Proofs.DPRange Proofs.StepDPReg Proofs.StepInstancesArmReg Proofs.StepInstancesCmp Proofs.StepInstancesArmRsr Proofs.StepInstancesThumbReg Proofs.StepInstancesMov Proofs.StepInstancesThumb2 Proofs.StepInstancesShift Proofs.StepInstancesThumb2Reg Proofs.StepInstancesCmpReg Proofs.StepInstancesCmpT2 Proofs.MemProofs Proofs.StepFetch Proofs.StepClosed Proofs.StepInstancesExample.
 From Gen Require Import enums opsyn core exec conc decoders step.
 Import ListNotations.
 Open Scope Z_scope.
@@ -1002,6 +1002,56 @@ Theorem C01_cmnRegisterA1_step cfg s w s1 :
     (forall k, 0 <= k -> k <> pc_index -> getl (R (AdvancePC (it_step_after s1 s2))) k = getl (R s1) k).
 Proof. exact (cmnRegisterA1_step cfg s w s1). Qed.
 Print Assumptions C01_cmnRegisterA1_step.
+
+(* TST, TEQ, CMN, CMP <Rn>, #const (Thumb, 32-bit): 11110 i 0 op 1 Rn : 0 imm3 1111 imm8 *)
+Theorem C01_tstImmediateT1_step cfg s w s1 :
+  ArmV6_fetch_instruction cfg s = Ok w s1 ->
+  0 <= w < 2 ^ 32 -> is_cmp_mi_t32 0 0 0 0 w -> iset_of s1 = 1 -> opcode_len s1 = 32 -> ictx cfg s1 -> cond_holds s1 ->
+  let n := bits w 19 16 in let imm32 := ThumbExpandImm (imm12t w) in let c := (snd (ThumbExpandImm_C (imm12t w) (cflag s1))) in
+  let op := (code_TstImmediate, [w; bits w 19 16; ThumbExpandImm (imm12t w); snd (ThumbExpandImm_C (imm12t w) (cflag s1))]) in
+  exists s2,
+    dp_sem cfg AND 1 None n (Op2Imm imm32 c) (begin_instr s1 op) = Ok tt s2 /\
+    ArmV6_emulate_cycle cfg s = Ok tt (AdvancePC (it_step_after s1 s2)) /\
+    pc_of (AdvancePC (it_step_after s1 s2)) = add32 (pc_of s1) 4 /\
+    (forall k, 0 <= k -> k <> pc_index -> getl (R (AdvancePC (it_step_after s1 s2))) k = getl (R s1) k).
+Proof. exact (tstImmediateT1_step cfg s w s1). Qed.
+Print Assumptions C01_tstImmediateT1_step.
+Theorem C01_teqImmediateT1_step cfg s w s1 :
+  ArmV6_fetch_instruction cfg s = Ok w s1 ->
+  0 <= w < 2 ^ 32 -> is_cmp_mi_t32 0 1 0 0 w -> iset_of s1 = 1 -> opcode_len s1 = 32 -> ictx cfg s1 -> cond_holds s1 ->
+  let n := bits w 19 16 in let imm32 := ThumbExpandImm (imm12t w) in let c := (snd (ThumbExpandImm_C (imm12t w) (cflag s1))) in
+  let op := (code_TeqImmediate, [w; bits w 19 16; ThumbExpandImm (imm12t w); snd (ThumbExpandImm_C (imm12t w) (cflag s1))]) in
+  exists s2,
+    dp_sem cfg EOR 1 None n (Op2Imm imm32 c) (begin_instr s1 op) = Ok tt s2 /\
+    ArmV6_emulate_cycle cfg s = Ok tt (AdvancePC (it_step_after s1 s2)) /\
+    pc_of (AdvancePC (it_step_after s1 s2)) = add32 (pc_of s1) 4 /\
+    (forall k, 0 <= k -> k <> pc_index -> getl (R (AdvancePC (it_step_after s1 s2))) k = getl (R s1) k).
+Proof. exact (teqImmediateT1_step cfg s w s1). Qed.
+Print Assumptions C01_teqImmediateT1_step.
+Theorem C01_cmnImmediateT1_step cfg s w s1 :
+  ArmV6_fetch_instruction cfg s = Ok w s1 ->
+  0 <= w < 2 ^ 32 -> is_cmp_mi_t32 1 0 0 0 w -> iset_of s1 = 1 -> opcode_len s1 = 32 -> ictx cfg s1 -> cond_holds s1 ->
+  let n := bits w 19 16 in let imm32 := ThumbExpandImm (imm12t w) in let c := 0 in
+  let op := (code_CmnImmediate, [w; bits w 19 16; ThumbExpandImm (imm12t w)]) in
+  exists s2,
+    dp_sem cfg ADD 1 None n (Op2Imm imm32 c) (begin_instr s1 op) = Ok tt s2 /\
+    ArmV6_emulate_cycle cfg s = Ok tt (AdvancePC (it_step_after s1 s2)) /\
+    pc_of (AdvancePC (it_step_after s1 s2)) = add32 (pc_of s1) 4 /\
+    (forall k, 0 <= k -> k <> pc_index -> getl (R (AdvancePC (it_step_after s1 s2))) k = getl (R s1) k).
+Proof. exact (cmnImmediateT1_step cfg s w s1). Qed.
+Print Assumptions C01_cmnImmediateT1_step.
+Theorem C01_cmpImmediateT2_step cfg s w s1 :
+  ArmV6_fetch_instruction cfg s = Ok w s1 ->
+  0 <= w < 2 ^ 32 -> is_cmp_mi_t32 1 1 0 1 w -> iset_of s1 = 1 -> opcode_len s1 = 32 -> ictx cfg s1 -> cond_holds s1 ->
+  let n := bits w 19 16 in let imm32 := ThumbExpandImm (imm12t w) in let c := 0 in
+  let op := (code_CmpImmediate, [w; bits w 19 16; ThumbExpandImm (imm12t w)]) in
+  exists s2,
+    dp_sem cfg SUB 1 None n (Op2Imm imm32 c) (begin_instr s1 op) = Ok tt s2 /\
+    ArmV6_emulate_cycle cfg s = Ok tt (AdvancePC (it_step_after s1 s2)) /\
+    pc_of (AdvancePC (it_step_after s1 s2)) = add32 (pc_of s1) 4 /\
+    (forall k, 0 <= k -> k <> pc_index -> getl (R (AdvancePC (it_step_after s1 s2))) k = getl (R s1) k).
+Proof. exact (cmpImmediateT2_step cfg s w s1). Qed.
+Print Assumptions C01_cmpImmediateT2_step.
 
 (* no hypothesis left about the stages of the cycle: ARM state, flat memory map (PMSA, MPU off), word-aligned PC; the instruction is
    whatever word the memory holds at the PC (Props/C13step.v discharges the fetch) *)
